@@ -186,8 +186,9 @@ Unescape(r) == Cat([i \in 1..Len(r) |->
                      IF r[i] = "&" THEN (IF EntityAt(r, i) # 0 THEN <<Entities[EntityAt(r, i)].c>> ELSE <<"?bad-reference?">>)
                      ELSE IF \E j \in (IF i > 5 THEN i - 5 ELSE 1)..(i - 1) : r[j] = "&" /\ EntityAt(r, j) # 0 /\ j + Len(Entities[EntityAt(r, j)].e) > i /\ \A m \in (j + 1)..(i - 1) : r[m] # "&"
                           THEN <<>> ELSE <<r[i]>>])
-\* attribute-value normalisation of XML 1.0: a raw tab / newline / cr in the document is delivered as a blank
-WsNorm(s) == [i \in 1..Len(s) |-> IF s[i] \in {TAB, NL, CR} THEN " " ELSE s[i]]
+\* line-end and attribute-value normalisation of XML 1.0: a raw tab / newline / cr in the document is delivered as a blank
+\* (cr immediately followed by newline as ONE blank)
+WsNorm(s) == Cat([i \in 1..Len(s) |-> IF s[i] = CR /\ i < Len(s) /\ s[i + 1] = NL THEN <<>> ELSE IF s[i] \in {TAB, NL, CR} THEN <<" ">> ELSE <<s[i]>>])
 \* (numeric character references are left to the arbiter)
 XmlAttrOK(raw, value) == IsInfix(S("&#"), raw) \/ (~Has(raw, {"<", "\""}) /\ WsNorm(Unescape(raw)) = value)
 
@@ -350,20 +351,25 @@ TmplRest  == IF Mode = "gen"
              THEN SetToSeq({t \in {<<p, q>> : p \in PartPool, q \in PartPool} \cup (IF Deep THEN {<<p, q, r>> : p \in PartPool, q \in PartPool, r \in PartPool} ELSE {}) : TemplateOK(t)})
              ELSE <<>>
 
+\* the dimension a case explores
+Dims == <<"msg", "file", "id", "shape", "msg", "real", "msg", "filebin", "file", "shape", "msg", "idbin">>
+DimOf(c) == Pick(Dims, c - 1)
+
 \* the template of case c: every fourth case uses a pre-defined name
 TemplateOf(c) ==
   IF c % 8 = 3 THEN [name |-> "gcc", parts |-> <<>>, loc |-> <<>>, hasloc |-> FALSE]
   ELSE IF c % 8 = 7 THEN [name |-> "vs", parts |-> <<>>, loc |-> <<>>, hasloc |-> FALSE]
   ELSE LET q == c - (c \div 8) * 2 IN
-       [name |-> "custom", parts |-> Walk(TmplFirst, TmplRest, q), loc |-> Pick(LocTemplates, c \div 3), hasloc |-> (c % 3 # 0)]
+       \* (how many locations a value-flow finding of a real project carries depends on whether locations are shown at all -
+       \*  Check::getErrorPath keeps the whole path only with --verbose, --xml or a location template; the real projects are
+       \*  therefore always run with a location template, so that the three runs report the same findings)
+       [name |-> "custom", parts |-> Walk(TmplFirst, TmplRest, q), loc |-> Pick(LocTemplates, c \div 3), hasloc |-> (c % 3 # 0 \/ DimOf(c) = "real")]
 
 \* lines / columns: f.c exists and has 3 lines, so a line beyond that is only generated for the other names
 LineOf(file, n) == IF file = S("f.c") THEN Pick(<<1, 3, 0, 2>>, n) ELSE Pick(<<1, 3, 0, 70000>>, n)
 ColOf(n) == Pick(<<5, 1, 0, 12>>, n)
 Loc1(file, n) == [file |-> file, line |-> LineOf(file, n), col |-> ColOf(n \div 4), info |-> <<>>]
 
-Dims == <<"msg", "file", "id", "shape", "msg", "real", "msg", "filebin", "file", "shape", "msg", "idbin">>
-DimOf(c) == Pick(Dims, c - 1)
 KOf(dim) == CASE dim = "msg" -> 10 [] dim = "file" -> 6 [] dim = "id" -> 4 [] dim = "shape" -> 6 [] dim = "filebin" -> 2 [] dim = "idbin" -> 1 [] OTHER -> 0
 \* number of the case among the cases of its dimension (1, 2, ...), for walking the pool of that dimension
 Ord(c) == Cardinality({d \in 1..c : DimOf(d) = DimOf(c)})
